@@ -11,24 +11,24 @@ TB = ("Trusted base: CPython 3.12, numpy 1.26, Hypothesis 6.168 (seeded by VERIF
       "over C after dividing by the largest entry, abs tol 1e-9 for integer pipelines, 1e-6 behind SVD/QR/sqrt). "
       "Only the generated domain is covered; inputs within 1e-6 of a degeneracy but not exactly on it are not generated.")
 P = {
- "C01": ("generated integer/Gaussian-integer configurations vs exact rational span/intersection; permutation, round-trip and normalisation metamorphic relations", "4 C01"),
+ "C01": ("generated integer/Gaussian-integer configurations (int / float / single precision / complex dtypes, collections of different rank and magnitude) vs exact rational span/intersection; permutation, round-trip and normalisation metamorphic relations", "4 C01"),
  "C02": ("exhaustive {-1,0,1} lattice enumeration + generated constructed degeneracies vs exact rank classification", "4 C02"),
  "C03": ("metamorphic: rescale one argument's homogeneous representative, compare results of ~every public operation; conic constructors on lattice data with every argument rescaled", "4 C03"),
  "C04": ("differential: collection call vs element-wise single calls over generated shapes and broadcasts", "4 C04"),
  "C05": ("model-based: generated tensor-diagram programs (incl. narrow integer types) vs a reference index-bookkeeping model evaluated by explicit einsum/loops in exact integers; exhaustive epsilon/delta tables and epsilon-epsilon contractions", "4 C05"),
  "C06": ("generated invertible integer matrices, exponents and application histories on every object kind; group laws; collections of up to 70 integer-typed matrices vs element-wise results", "4 C06"),
- "C07": ("metamorphic: conjugation of incidence/join/meet/tangency/cross-ratio configurations by generated non-affine maps", "4 C07"),
+ "C07": ("metamorphic: conjugation of incidence/join/meet/tangency/cross-ratio configurations by generated non-affine (also complex) maps, single objects and collections with up to three axes under collections of maps", "4 C07"),
  "C08": ("generated parameters vs Cartesian closed forms of the constructors; frame mapping round-trips", "4 C08"),
  "C09": ("generated finite objects vs Euclidean closed forms; symmetry and isometry metamorphic relations", "4 C09"),
- "C10": ("generated lines/planes/points incl. exactly-incident ones vs Cartesian definitions and exact predicates", "4 C10"),
+ "C10": ("generated lines/planes/points incl. exactly-incident and complex ones vs Cartesian definitions and exact predicates; collections of up to 70 elements and of subspaces in different special positions", "4 C10"),
  "C11": ("generated parameters on a line/pencil vs exact Fraction cross ratio; symmetry and invariance relations", "4 C11"),
- "C12": ("stateful rule-based machine over a shared object pool with deep snapshots, re-asked queries and history-free clones; enumerated query-derive-query triples; generated query sequences over the process-wide epsilon/delta tables", "4 C12"),
+ "C12": ("stateful rule-based machine over a shared object pool with deep snapshots, re-asked queries and history-free clones; enumerated query-derive-query triples; generated query sequences over the process-wide epsilon/delta tables; operand arrays of the numeric kernels; constructors must not alias their sources", "4 C12"),
  "C13": ("generated defining data vs parametrised Cartesian loci and textbook measures", "4 C13"),
- "C14": ("generated quadrics with exact rational points, secant/tangent/missing lines vs exact restriction roots; pole/polar/dual relations", "4 C14"),
+ "C14": ("generated quadrics with exact rational points, secant/tangent/missing lines vs exact restriction roots; pole/polar/dual relations; circles / cones of radius 1/16 ... 5; collections mixing reducible and irreducible quadrics vs single calls", "4 C14"),
  "C15": ("exhaustive lattice of line pairs + generated plane pairs/pencils with planted repeated roots vs the generating pair / exact common points", "4 C15"),
  "C16": ("generated simple lattice polygons x exhaustive bounding-box query grid vs exact closed point-in-polygon", "4 C16"),
  "C17": ("generated polytopes under isometries vs shoelace/determinant closed forms; vertex-order metamorphic relations", "4 C17"),
- "C18": ("generated lattice operands incl. touching/parallel/coplanar vs exact Fraction intersection sets", "4 C18"),
+ "C18": ("generated lattice operands incl. touching/parallel/coplanar vs exact Fraction intersection sets; collections mixing crossing, touching, parallel and in-plane members", "4 C18"),
  "C19": ("differential vs numpy: generated operand pairings and index-expression grammar with a structural index-type model", "4 C19"),
  "C20": ("differential vs exact integer linear algebra across batch thresholds; planted-root polynomials", "4 C20"),
 }
